@@ -105,3 +105,86 @@ _Rb_tree_node_base* _Rb_tree_rebalance_for_erase(_Rb_tree_node_base* const z, _R
    return y;
 }
 }
+
+// ---- std::list node primitives (libstdc++ src/c++98/list.cc)
+#include <list>
+namespace std { namespace __detail {
+void _List_node_base::_M_hook(_List_node_base* const position) noexcept {
+   this->_M_next = position; this->_M_prev = position->_M_prev;
+   position->_M_prev->_M_next = this; position->_M_prev = this;
+}
+void _List_node_base::_M_unhook() noexcept {
+   _List_node_base* const next_node = this->_M_next; _List_node_base* const prev_node = this->_M_prev;
+   prev_node->_M_next = next_node; next_node->_M_prev = prev_node;
+}
+void _List_node_base::_M_transfer(_List_node_base* const first, _List_node_base* const last) noexcept {
+   if (this != last) {
+      last->_M_prev->_M_next = this; first->_M_prev->_M_next = last; this->_M_prev->_M_next = first;
+      _List_node_base* const tmp = this->_M_prev;
+      this->_M_prev = last->_M_prev; last->_M_prev = first->_M_prev; first->_M_prev = tmp;
+   }
+}
+void _List_node_base::_M_reverse() noexcept {
+   _List_node_base* tmp = this;
+   do { std::swap(tmp->_M_next, tmp->_M_prev); tmp = tmp->_M_prev; } while (tmp != this);
+}
+void _List_node_base::swap(_List_node_base& x, _List_node_base& y) noexcept {
+   if (x._M_next != &x) {
+      if (y._M_next != &y) { std::swap(x._M_next, y._M_next); std::swap(x._M_prev, y._M_prev); x._M_next->_M_prev = x._M_prev->_M_next = &x; y._M_next->_M_prev = y._M_prev->_M_next = &y; }
+      else { y._M_next = x._M_next; y._M_prev = x._M_prev; y._M_next->_M_prev = y._M_prev->_M_next = &y; x._M_next = x._M_prev = &x; }
+   } else if (y._M_next != &y) { x._M_next = y._M_next; x._M_prev = y._M_prev; x._M_next->_M_prev = x._M_prev->_M_next = &x; y._M_next = y._M_prev = &y; }
+}
+} }
+
+// ---- hash table rehash policy (libstdc++ src/c++11/hashtable_c++0x.cc); prime list cut at 1031 (larger tables are outside every bound used here)
+#include <unordered_set>
+namespace std { namespace __detail {
+static const unsigned long vs_primes[] = { 2ul, 3ul, 5ul, 7ul, 11ul, 13ul, 17ul, 19ul, 23ul, 29ul, 31ul, 37ul, 41ul, 43ul, 47ul, 53ul, 59ul, 61ul, 67ul, 71ul, 73ul, 79ul, 83ul, 89ul, 97ul, 103ul, 109ul, 113ul, 127ul, 137ul, 139ul, 149ul,
+   157ul, 167ul, 179ul, 193ul, 199ul, 211ul, 227ul, 241ul, 257ul, 277ul, 293ul, 313ul, 337ul, 359ul, 383ul, 409ul, 439ul, 467ul, 503ul, 541ul, 577ul, 619ul, 661ul, 709ul, 761ul, 823ul, 887ul, 953ul, 1031ul };
+std::size_t _Prime_rehash_policy::_M_next_bkt(std::size_t n) const {
+   static const unsigned char fast_bkt[] = { 2, 2, 2, 3, 5, 5, 7, 7, 11, 11, 11, 11, 13, 13 };
+   if (n < sizeof(fast_bkt)) {
+      if (n == 0) return 1;
+      _M_next_resize = (std::size_t) ((double) fast_bkt[n] * (double) _M_max_load_factor);
+      return fast_bkt[n];
+   }
+   const unsigned long* p = vs_primes + 6;
+   const unsigned long* last = vs_primes + sizeof(vs_primes) / sizeof(vs_primes[0]) - 1;
+   while (p != last && *p < n) ++p;
+   _M_next_resize = (std::size_t) ((double) *p * (double) _M_max_load_factor);
+   return *p;
+}
+std::pair<bool, std::size_t> _Prime_rehash_policy::_M_need_rehash(std::size_t n_bkt, std::size_t n_elt, std::size_t n_ins) const {
+   if (n_elt + n_ins > _M_next_resize) {
+      double min_bkts = (double) std::max<std::size_t>(n_elt + n_ins, _M_next_resize ? 0 : 11) / (double) _M_max_load_factor;
+      if (min_bkts >= (double) n_bkt)
+         return { true, _M_next_bkt(std::max<std::size_t>((std::size_t) min_bkts + 1, n_bkt * _S_growth_factor)) };
+      _M_next_resize = (std::size_t) ((double) n_bkt * (double) _M_max_load_factor);
+      return { false, 0 };
+   }
+   return { false, 0 };
+}
+} }
+
+// ---- std::getline(istream&, string&, char) ([string.io]) on top of the engine's input stream model
+#include <istream>
+#include <string>
+extern "C" int vs_istream_getc(void* is);      // next byte of the modelled stream, -1 at end of file
+namespace vs_model {
+std::istream& getline(std::istream& is, std::string& str, char delim) __asm__("_ZSt7getlineIcSt11char_traitsIcESaIcEERSt13basic_istreamIT_T0_ES7_RNSt7__cxx1112basic_stringIS4_S5_T1_EES4_");
+std::istream& getline(std::istream& is, std::string& str, char delim) {
+   std::ios_base::iostate err = std::ios_base::goodbit; unsigned long n = 0;
+   if (!is.good()) { is.setstate(std::ios_base::failbit); return is; }      // sentry
+   str.erase();
+   for (;;) {
+      int c = vs_istream_getc(&is);
+      if (c < 0) { err |= std::ios_base::eofbit; break; }
+      ++n;
+      if ((char) c == delim) break;
+      str += (char) c;
+   }
+   if (n == 0) err |= std::ios_base::failbit;
+   if (err) is.setstate(err);
+   return is;
+}
+}
